@@ -11,6 +11,7 @@ import itertools
 from typing import Any, Dict, List, Sequence
 
 from mc import codec
+from mc.report import guard_harness as _guard
 from mc.report import add_sample, add_violation, count, new_part
 
 LEVEL = "exploration"
@@ -46,6 +47,7 @@ def check_case(flav: str, items: Sequence, app_id: int, version, part, klass_by_
             instrs.append(codec.make_instr(cls, codec.live_operand_kinds(cls), lv))
         raw = bytes(Subroutine(instructions=list(instrs), app_id=app_id, netqasm_version=tuple(version)))
     except Exception as exc:  # in-range operands must encode
+        _guard(exc)
         add_violation(part, f"encode-raises/{flav}/{mn0}", f"encoding in-range operands raised {type(exc).__name__}: {exc}", case)
         return False
     if len(raw) != 4 + 7 * len(instrs):
@@ -54,6 +56,7 @@ def check_case(flav: str, items: Sequence, app_id: int, version, part, klass_by_
     try:
         dec = deserialize(raw, codec.flavour(flav))
     except Exception as exc:
+        _guard(exc)
         add_violation(part, f"decode-raises/{flav}/{mn0}", f"decoding own bytes raised {type(exc).__name__}: {exc}", case,
                       {"bytes": raw})
         return False
@@ -267,6 +270,7 @@ def run_history(flav: str, ops: Sequence[str], part) -> None:
                 sub.instantiate(3, {})
         dec = deserialize(bytes(sub), codec.flavour(flav))
     except Exception as exc:
+        _guard(exc)
         add_violation(part, f"history-raises/{flav}", f"{type(exc).__name__}: {exc}", case)
         return
     if dec.app_id != model_app:
